@@ -2,7 +2,7 @@ import Usid.Model.LoopGen
 import Usid.Model.Memory
 import Usid.Proofs.Process
 /-! C15 — batch sizing honours the memory/core budget and compute() always terminates.
-    `set_cores`, `recommend_cpu_cores`, `read_window` are GENERATED from /repo on every run. -/
+    `set_cores`, `set_memory`, `recommend_cpu_cores`, `read_window` are GENERATED from /repo on every run. -/
 namespace Usid.C15
 open Usid Usid.Generated Usid.Mem Usid.Proc
 
@@ -37,6 +37,97 @@ theorem admits_one_row (g workers rowBytes num den : Nat) (hpos : 0 < workers * 
     (h : workers * rowBytes * num ≤ g * den) : 1 ≤ maxPos g workers rowBytes num den := by
   unfold maxPos
   exact (Nat.le_div_iff_mul_le hpos).mpr (by simpa using h)
+
+/-- The GENERATED `__set_memory` (translated from process.py on every run, floats as exact fractions) computes
+    exactly the hand model's batch size for every valid configuration: any available memory, any requested limit
+    of either sign, any multiplier `num/den ≥ 1`, any positive worker count and row size.  `budget`, `monotone`,
+    `admits_one_row` below therefore speak about what the source says now. -/
+theorem generated_set_memory_eq_hand (avail cores ranks itemsize cols num den : Nat) (mb : Option Int)
+    (hden : 0 < den) (hmul : den ≤ num) (hw : 0 < cores * ranks) (hr : 0 < itemsize * cols) :
+    set_memory (avail : Int) mb ⟨(num : Int), (den : Int)⟩ cores ranks itemsize cols =
+      .ok ((maxPos (granted avail (mb.map Int.natAbs)) (cores * ranks) (itemsize * cols) num den : Nat) : Int) := by
+  have hw' : ((cores : Int) * (ranks : Int)) ≠ 0 := by
+    have : (0 : Int) < ((cores * ranks : Nat) : Int) := by exact_mod_cast hw
+    push_cast at this; omega
+  have hw'' : (0 : Int) < (cores : Int) * (ranks : Int) := by
+    have : (0 : Int) < ((cores * ranks : Nat) : Int) := by exact_mod_cast hw
+    push_cast at this; exact this
+  have hnum : 0 < num := by omega
+  have hb : (0 : Int) < (itemsize : Int) * (cols : Int) * (num : Int) := by
+    have : (0 : Int) < ((itemsize * cols * num : Nat) : Int) := by
+      exact_mod_cast Nat.mul_pos hr hnum
+    push_cast at this; exact this
+  have hb' : (itemsize : Int) * (cols : Int) * (num : Int) ≠ 0 := by omega
+  have hlt : ¬ ((num : Int) * 1 < 1 * (den : Int)) := by omega
+  cases mb with
+  | none =>
+    simp only [set_memory, bind, Except.bind, pure, Except.pure, PyQ.abs, PyQ.lt, PyQ.ofInt, PyQ.mul, PyQ.floor,
+      pyTrueDiv, Int.natAbs_natCast, hlt, decide_false, hw', hw'', hb, hb', if_false, if_true, not_true_eq_false,
+      Bool.false_eq_true, Option.map, granted, maxPos, fquot]
+    simp only [Int.mul_one, Int.one_mul, Int.min_self]
+    rw [show (avail : Int) * (den : Int) = ((avail * den : Nat) : Int) by push_cast; rfl,
+        show (cores : Int) * (ranks : Int) * ((itemsize : Int) * (cols : Int) * (num : Int))
+          = ((cores * ranks * (itemsize * cols) * num : Nat) : Int) by push_cast; simp [Int.mul_assoc],
+        ← Int.ofNat_fdiv]
+  | some m =>
+    simp only [set_memory, bind, Except.bind, pure, Except.pure, PyQ.abs, PyQ.lt, PyQ.ofInt, PyQ.mul, PyQ.floor,
+      pyTrueDiv, Int.natAbs_natCast, hlt, decide_false, hw', hw'', hb, hb', if_false, if_true, not_true_eq_false,
+      Bool.false_eq_true, Option.map, granted, maxPos, fquot]
+    simp only [Int.mul_one, Int.one_mul]
+    rw [show min (avail : Int) (((m.natAbs : Nat) : Int) * (1024 : Int) ^ 2) = ((min avail (m.natAbs * 1024 ^ 2) : Nat) : Int) by
+          omega,
+        show ((min avail (m.natAbs * 1024 ^ 2) : Nat) : Int) * (den : Int) = ((min avail (m.natAbs * 1024 ^ 2) * den : Nat) : Int) by push_cast; rfl,
+        show (cores : Int) * (ranks : Int) * ((itemsize : Int) * (cols : Int) * (num : Int))
+          = ((cores * ranks * (itemsize * cols) * num : Nat) : Int) by push_cast; simp [Int.mul_assoc],
+        ← Int.ofNat_fdiv]
+
+/-- a multiplier of absolute value below 1 is refused before anything is computed -/
+theorem set_memory_small_multiplier_raises (avail cores ranks itemsize cols : Int) (mb : Option Int) (n : Int)
+    (d : Nat) (h : n.natAbs < d) :
+    set_memory avail mb ⟨n, (d : Int)⟩ cores ranks itemsize cols = .error .valueErr := by
+  have hlt : ((n.natAbs : Nat) : Int) * 1 < 1 * (d : Int) := by omega
+  simp only [set_memory, bind, Except.bind, pure, Except.pure, PyQ.abs, PyQ.lt, PyQ.ofInt, hlt, decide_true,
+    not_true_eq_false, if_false, if_true, throw, throwThe, MonadExceptOf.throw]
+
+/-- only the absolute values of the limit and of the multiplier matter -/
+theorem set_memory_sign_irrelevant (avail cores ranks itemsize cols : Int) (mb : Int) (n d : Int) :
+    set_memory avail (some (-mb)) ⟨-n, d⟩ cores ranks itemsize cols =
+      set_memory avail (some mb) ⟨n, d⟩ cores ranks itemsize cols := by
+  have h1 : PyQ.abs ⟨-n, d⟩ = PyQ.abs ⟨n, d⟩ := by simp only [PyQ.abs, Int.natAbs_neg]
+  unfold set_memory
+  simp only [h1, Int.natAbs_neg]
+
+/-- no worker: an explicit ZeroDivisionError, never a silent batch size -/
+theorem set_memory_zero_workers_raises (avail itemsize cols : Int) (cores ranks : Int) (mb : Option Int)
+    (num den : Nat) (hmul : den ≤ num) (hw : cores * ranks = 0) :
+    set_memory avail mb ⟨(num : Int), (den : Int)⟩ cores ranks itemsize cols = .error .zeroDiv := by
+  have hlt : ¬ ((num : Int) * 1 < 1 * (den : Int)) := by omega
+  cases mb <;>
+  simp only [set_memory, bind, Except.bind, pure, Except.pure, PyQ.abs, PyQ.lt, PyQ.ofInt, PyQ.mul, PyQ.floor,
+      pyTrueDiv, Int.natAbs_natCast, hlt, decide_false, hw, if_false, if_true, not_true_eq_false,
+      Bool.false_eq_true]
+
+/-- rows of zero bytes: an explicit ZeroDivisionError -/
+theorem set_memory_zero_row_raises (avail itemsize cols : Int) (cores ranks : Int) (mb : Option Int)
+    (num den : Nat) (hmul : den ≤ num) (hw : cores * ranks ≠ 0) (hr : itemsize * cols = 0) :
+    set_memory avail mb ⟨(num : Int), (den : Int)⟩ cores ranks itemsize cols = .error .zeroDiv := by
+  have hlt : ¬ ((num : Int) * 1 < 1 * (den : Int)) := by omega
+  cases mb <;> by_cases hp : 0 < cores * ranks <;>
+  simp only [set_memory, bind, Except.bind, pure, Except.pure, PyQ.abs, PyQ.lt, PyQ.ofInt, PyQ.mul, PyQ.floor,
+      pyTrueDiv, Int.natAbs_natCast, hlt, decide_false, hw, hp, hr, Int.zero_mul, if_false, if_true, not_true_eq_false,
+      Bool.false_eq_true]
+
+example : set_memory (1024 * 1024) none ⟨3, 2⟩ 2 1 8 100 = .ok 436 := by rfl
+example : set_memory (1024 * 1024 * 1024) (some (-1)) ⟨-3, 2⟩ 2 1 8 100 = .ok 436 := by rfl
+example : set_memory 1000 none ⟨1, 2⟩ 2 1 8 100 = .error .valueErr := by rfl
+
+/-- budget, stated on the generated definition itself -/
+theorem generated_budget (avail cores ranks itemsize cols num den : Nat) (mb : Option Int)
+    (hden : 0 < den) (hmul : den ≤ num) (hw : 0 < cores * ranks) (hr : 0 < itemsize * cols) :
+    ∃ p : Nat, set_memory (avail : Int) mb ⟨(num : Int), (den : Int)⟩ cores ranks itemsize cols = .ok (p : Int) ∧
+      p * (itemsize * cols) * num * (cores * ranks) ≤ granted avail (mb.map Int.natAbs) * den :=
+  ⟨_, generated_set_memory_eq_hand avail cores ranks itemsize cols num den mb hden hmul hw hr,
+    budget _ _ _ _ _⟩
 
 /-- worker count chosen by the (generated) `__set_cores`: always within `[1, logical]`, for every kind of
     request (None, negative, zero, beyond the machine). -/
